@@ -495,6 +495,42 @@ def moves_repeated(f):
     return out
 
 
+def refs_into_dead_temporaries(f):
+    """`const T& r = *obj.lock_shared();` - a local reference bound to the payload reached through a TEMPORARY handle (a
+    prvalue of one of the library's handle types, or a unique_ptr with a library deleter): the temporary - and with it
+    the lock / reader registration - is gone at the end of the declaration, every later use of the reference runs
+    unprotected.  list of (decl stmt, reference name, first later use)"""
+    out = []
+    for st in f.stmts.values():
+        if st["k"] != "DeclStmt":
+            continue
+        for d in st["decls"]:
+            if not d.get("ref") or not d.get("init") or d.get("inl"):
+                continue
+            e = f.s(d["init"])
+            while e is not None and e["k"] in WRAPPERS:
+                ch = f.children(e)
+                e = ch[0] if ch else None
+            operand = None
+            if e is not None and e["k"] == "CXXOperatorCallExpr" and e.get("op") in ("*", "->") and e["args"]:
+                operand = f.s(e["args"][0])
+            elif e is not None and e["k"] == "UnaryOperator" and e.get("op") == "*":
+                operand = f.children(e)[0]
+            while operand is not None and operand["k"] in ("ImplicitCastExpr", "ParenExpr"):
+                ch = f.children(operand)
+                operand = ch[0] if ch else None
+            if operand is None or operand["k"] not in ("MaterializeTemporaryExpr", "CXXBindTemporaryExpr"):
+                continue
+            t = operand.get("t", "")
+            protective = "gmlc::libguarded::" in t and ("handle" in t or "unique_ptr<" in t or "_deleter" in t or "deleter>" in t)
+            if not protective:
+                continue
+            uses = [u for u in f.stmts.values() if u["k"] == "DeclRefExpr" and u["d"].get("id") == d["id"]]
+            if uses:
+                out.append((st, d["name"], uses[0]))
+    return out
+
+
 def uses_after_move(f):
     """a local / parameter is passed on with std::move or std::forward (as an rvalue) and used again at a point that
     can be reached from there without the variable being reassigned: the later use sees a moved-from object
